@@ -69,3 +69,11 @@ if "HyteraIPSC.frame" in REGISTRY:
     _ipsc = [dict(slot="VoiceFrameA", timeslot="Timeslot_1", call="GroupCall"), dict(slot="VoiceFrameB", timeslot="Timeslot_2", call="PrivateCall"),
              dict(slot="Rate12Data", timeslot="Timeslot_1", call="GroupCall", err=200), dict(slot="Wakeup", timeslot="Timeslot_1", call="WakeupCall_2")]
     pair(REGISTRY["HyteraIPSC.frame"], shapes=lambda tier: [(a, b) for a in _ipsc for b in _ipsc if a is not b or a["slot"] == "VoiceFrameB"])
+
+# the byte-oriented entry points once more with caller-owned MUTABLE buffers (bytearray): same clauses, buffers unchanged
+from pyvc.pair import mutable
+
+for _n, _k in (("CRC16.calculate", 3), ("CRC32.calculate", 3), ("CRC9.calculate_from_parts", 3), ("ReedSolomon1294.generate", 1), ("ReedSolomon1294.check", 1),
+               ("HSTRP.from_bytes.over_approximation", 6), ("MBXML.uintvar", 2)):
+    if _n in REGISTRY:
+        mutable(REGISTRY[_n], pick=_k)
